@@ -345,4 +345,80 @@ theorem nvalid_prefix : ∀ (es₁ es₂ : List NEv) (n : Node), NValidFrom n (e
   | nil => intros; trivial
   | cons e es ih => intro es₂ n h; exact ⟨h.1, ih es₂ _ h.2⟩
 
+/-! ### the node's share set (`_shares`) only grows -/
+
+theorem known_startNew (n : Node) : (startNewSegment n).known = n.known := by
+  unfold startNewSegment; split <;> rfl
+
+theorem known_fetcherEv (n : Node) (g : Nat) (e : Ev) : (fetcherEv n g e).known = n.known := by
+  unfold fetcherEv
+  split
+  · rfl
+  · split
+    · rfl
+    · dsimp only
+      split
+      · simp [fetchFailed, known_startNew, retire]
+      · unfold processBlocks
+        split
+        · split <;> simp [known_startNew, retire]
+        · simp [known_startNew, retire]
+      · rfl
+
+/-- `got_shares` adds to `_shares` whether or not a fetcher is running; nothing ever removes from it -/
+theorem known_nstep (n : Node) (e : NEv) (sh : Share) (h : sh ∈ n.known ∨ (∃ l, e = .gotShares l ∧ sh ∈ l)) :
+    sh ∈ (nstep n e).known := by
+  cases e with
+  | getSegment a b =>
+    rcases h with h | ⟨l, he, _⟩
+    · simpa [nstep, known_startNew] using h
+    · cases he
+  | cancel q =>
+    rcases h with h | ⟨l, he, _⟩
+    · simp only [nstep]
+      split
+      · exact h
+      · split
+        · split
+          · exact h
+          · simpa [known_startNew] using h
+        · exact h
+    · cases he
+  | gotShares l' =>
+    have hk : sh ∈ n.known ++ l'.filter (fun s => !(n.known.contains s)) := by
+      rcases h with h | ⟨l, he, hl⟩
+      · simp [h]
+      · cases he
+        by_cases hin : sh ∈ n.known
+        · simp [hin]
+        · simp [List.mem_filter, hl, hin]
+    simp only [nstep]
+    split
+    · rw [known_fetcherEv]; exact hk
+    · exact hk
+  | noMoreShares =>
+    rcases h with h | ⟨l, he, _⟩
+    · simp only [nstep]; split
+      · rw [known_fetcherEv]; exact h
+      · exact h
+    · cases he
+  | uebKnown =>
+    rcases h with h | ⟨l, he, _⟩
+    · exact h
+    · cases he
+  | share g s st =>
+    rcases h with h | ⟨l, he, _⟩
+    · simp only [nstep]; rw [known_fetcherEv]; split <;> exact h
+    · cases he
+  | loop g =>
+    rcases h with h | ⟨l, he, _⟩
+    · simp only [nstep]; rw [known_fetcherEv]; exact h
+    · cases he
+
+theorem known_nrun : ∀ (es : List NEv) (n : Node) (sh : Share), sh ∈ n.known → sh ∈ (nrun n es).known := by
+  intro es
+  induction es with
+  | nil => intro n sh h; exact h
+  | cons e es ih => intro n sh h; exact ih _ sh (known_nstep n e sh (Or.inl h))
+
 end Tahoe.Fetch
